@@ -79,6 +79,15 @@ def gfOp (f : List String) : Option String :=
   | ["gf.div0", pp, size, base, a] => do
     let fld := newField (← pp.toNat?) (← size.toNat?) (← base.toNat?)
     pure (match fld.div (← a.toNat?) 0 with | none => "panic" | some _ => "ok")
+  | ["poly", pp, size, base, "mono", d, c] => do
+    let _fld := newField (← pp.toNat?) (← size.toNat?) (← base.toNat?)
+    pure ("ok r=" ++ joinNats (monomial (← d.toNat?) (← c.toNat?)))
+  | ["poly", pp, size, base, "mulmono", p, dc] => do
+    let fld := newField (← pp.toNat?) (← size.toNat?) (← base.toNat?)
+    let p := newPoly (← nats p)
+    match (← nats dc) with
+    | [d, c] => pure ("ok r=" ++ joinNats (mulMonomial fld p d c))
+    | _ => none
   | ["poly", pp, size, base, op, p, q] => do
     let fld := newField (← pp.toNat?) (← size.toNat?) (← base.toNat?)
     let p := newPoly (← nats p)
